@@ -289,7 +289,7 @@ class Ref:
 
 
 # =============================================================== API generators
-def conventional_plus(r, features=None):
+def conventional_plus(r, features=None, file_shapes=False):
     """apis.conventional extended with the shapes C16 quantifies over. Returns (api, knobs)."""
     allf = ["lro", "streaming", "custom", "second_service", "multi_file", "nested_resource"]
     if features is None:
@@ -349,6 +349,42 @@ def conventional_plus(r, features=None):
         main.resource_def("library.example.com/Annex", ["annexes/{annex}"])
         add_field(reqs[-1], "annex", "string", child_ref="library.example.com/Annex")
         knobs.add("resource_ref")
+    if file_shapes or r.random() < 0.5:
+        # target files of special shapes: (a) only top-level enums, one of them the type of a field of a request in
+        # another file; (b) only messages, used by one request; (c) only a service, whose types live in the main file.
+        # Depending on the listed RPCs each of them is kept with a single kind of content, or becomes empty and vanishes.
+        def rpc_of(req_pb):
+            for f in api.files:
+                for sv in f.proto.service:
+                    for m in sv.method:
+                        if m.input_type == f".{pkgname}.{req_pb.name}":
+                            return f"{pkgname}.{sv.name}.{m.name}"
+            return None
+        hints = []
+        enums = File(f"{api.dir}/enums.proto", pkgname)
+        grade = enums.enum("Grade", ["GRADE_UNSPECIFIED", "GRADE_LOW", "GRADE_HIGH"])
+        enums.enum("Colour", ["COLOUR_UNSPECIFIED", "RED"])
+        shapes = File(f"{api.dir}/shapes.proto", pkgname)
+        shape = shapes.message("Shape")
+        shape.field("sides", 1, "int32").field("label", 2, "string")
+        shapes.message("Blob").field("mass", 1, "double")
+        for extra_file in (enums, shapes):
+            api.files.insert(1, extra_file)
+            main.dep(extra_file.proto.name)
+        if reqs:
+            add_field(reqs[0], "grade", ("enum", grade))
+            hints.append([rpc_of(reqs[0])])
+            add_field(reqs[-1], "shape", shape.fqn)
+            hints.append([rpc_of(reqs[-1])])
+            svcf = File(f"{api.dir}/pinger.proto", pkgname, deps=list(apigen.STD_DEPS) + [main.proto.name])
+            ps = svcf.service("Pinger", host=api.host)
+            resp = next((m for m in main.proto.message_type if not m.name.endswith("Request")), reqs[0])
+            ps.rpc("Ping", f".{pkgname}.{reqs[0].name}", f".{pkgname}.{resp.name}", http=("post", "/v1/ping"), body="*")
+            api.files.insert(1, svcf)
+            hints.append([f"{pkgname}.Pinger.Ping"])
+            hints.append([h[0] for h in hints[:2] if h[0]])
+        api.info["c16_subsets"] = [h for h in hints if h and all(h)]
+        knobs.add("file_shapes")
     if r.random() < 0.5:
         # a third target file nothing refers to: it disappears under selective generation
         extra = File(f"{api.dir}/extra.proto", pkgname, deps=list(apigen.STD_DEPS))
@@ -435,22 +471,23 @@ def dep_package_api(r):
     return api.request(extra_files=[dep], to_generate=[f.proto.name for f in api.files]), knobs | {"dep_package"}
 
 
-def pick_subsets(r, mbs, limit):
+def pick_subsets(r, mbs, limit, first=()):
     """Interesting subsets of RPC selectors: singletons, one whole service, all, all but one, halves, pairs
     across services, LRO/list only. Deterministic order, capped at [limit] distinct subsets."""
     allm = [f"{s}.{m}" for s, ms in mbs for m in ms]
-    cands = []
+    cands = [list(c) for c in first]
     if not allm:
         return []
     cands.append([r.choice(allm)])
     if len(mbs) > 1:
         cands.append([f"{mbs[0][0]}.{m}" for m in mbs[0][1]])       # the other services become empty
+    cands.append(list(allm))
+    if len(mbs) > 1:
         cands.append([f"{mbs[-1][0]}.{mbs[-1][1][0]}"])
     for pat in ("List", "Import", "Export", "Reindex", "Create", "Get", "Stream"):
         hit = [m for m in allm if m.split(".")[-1].startswith(pat) or pat in m.split(".")[-1]]
         if hit:
             cands.append([r.choice(hit)])
-    cands.append(list(allm))
     if len(allm) > 1:
         drop = r.choice(allm)
         cands.append([m for m in allm if m != drop])
